@@ -1,5 +1,318 @@
-import OsmVerif.Model.Annotate
+import OsmVerif.Lemmas.Sort
+/-!
+# C12 — annotation is deterministic; updates are ordered by index, time, version
+
+Theorems about `Model.Annotate.compute` (hand-written model of core.Compute, tied to the code by
+the differential stream and by repeating the real computation on deep copies). The order in which
+Go iterates the child map is the parameter `order`; the comparison keys of `SortByIndex` are
+regenerated from update.go (`Gen.Update.sortIndexKeys`).
+-/
 namespace OsmVerif.Props.C12
-open OsmVerif.Model.Annotate
-theorem groupByParent_nil : groupByParent [] = [] := rfl
+open OsmVerif.Model.Annotate OsmVerif.Gen.Update
+
+/-- the comparison of `updatesSortIndex.Less`, as extracted: index, then timestamp, then version -/
+theorem index_keys : sortIndexKeys = ["index", "timestamp", "version"] := by decide
+
+abbrev less := keyLess sortIndexKeys
+
+/-- **ties only between equal keys**: two updates neither of which sorts before the other agree on
+    index, timestamp and version (so versions of one child that share a timestamp are never tied) -/
+theorem incomparable_keys_equal (a b : Update) (h1 : less a b = false) (h2 : less b a = false) :
+    a.index = b.index ∧ a.ts = b.ts ∧ a.version = b.version := by
+  have hk := index_keys
+  simp only [less, hk, keyLess, keyOf] at h1 h2
+  by_cases i1 : (a.index : Int) < b.index
+  · simp [i1] at h1
+  · by_cases i2 : (b.index : Int) < a.index
+    · simp [i2] at h2
+    · simp only [i1, i2, if_false] at h1 h2
+      by_cases t1 : a.ts < b.ts
+      · simp [t1] at h1
+      · by_cases t2 : b.ts < a.ts
+        · simp [t2] at h2
+        · simp only [t1, t2, if_false] at h1 h2
+          by_cases v1 : a.version < b.version
+          · simp [v1] at h1
+          · by_cases v2 : b.version < a.version
+            · simp [v2] at h2
+            · refine ⟨by omega, by omega, by omega⟩
+
+/-- `a` sorts strictly before `b` exactly when (index, timestamp, version) is lexicographically smaller -/
+theorem less_iff_lex (a b : Update) :
+    less a b = true ↔ (a.index < b.index ∨ (a.index = b.index ∧ (a.ts < b.ts ∨ (a.ts = b.ts ∧ a.version < b.version)))) := by
+  have hk := index_keys
+  simp only [less, hk, keyLess, keyOf]
+  by_cases i1 : (a.index : Int) < b.index
+  · have : a.index < b.index := by omega
+    simp [i1, this]
+  · by_cases i2 : (b.index : Int) < a.index
+    · have h1 : ¬ a.index < b.index := by omega
+      have h2 : ¬ a.index = b.index := by omega
+      simp [i1, i2, h1, h2]
+    · have e : a.index = b.index := by omega
+      have h1 : ¬ a.index < b.index := by omega
+      simp only [i1, i2, if_false, h1, false_or, e, true_and]
+      by_cases t1 : a.ts < b.ts
+      · simp [t1]
+      · by_cases t2 : b.ts < a.ts
+        · have : ¬ a.ts = b.ts := by omega
+          simp [t1, t2, this]
+        · have e2 : a.ts = b.ts := by omega
+          simp only [t1, t2, if_false, false_or, e2, true_and]
+          by_cases v1 : a.version < b.version
+          · simp [v1]
+          · by_cases v2 : b.version < a.version <;> simp [v1, v2]
+
+theorem sortByIndex_sorted (l : List Update) : SortedBy less (sortByIndex l) :=
+  sortBy_sorted _ (keyLess_asymm _) (keyLess_trans _) l
+
+theorem sortByIndex_perm (l : List Update) : (sortByIndex l).Perm l := sortBy_perm _ l
+
+/-! ## the per-child fold -/
+
+/-- the effects of a child that is processed without error -/
+def okEffects (o : Options) (parents : List ParentV) (hist : Nat → Option (List Child)) (fid : Nat) : List Effect :=
+  match childEffects o parents hist fid with
+  | .ok es => es
+  | .error _ => []
+
+def collect (o : Options) (parents : List ParentV) (hist : Nat → Option (List Child)) (acc : List Effect) (order : List Nat) :
+    Except Err (List Effect) :=
+  order.foldlM (init := acc) fun acc fid => do
+    let es ← childEffects o parents hist fid
+    pure (acc ++ es)
+
+theorem collect_ok_iff (o : Options) (parents : List ParentV) (hist : Nat → Option (List Child)) (order : List Nat) :
+    ∀ acc, (∀ fid ∈ order, ∃ es, childEffects o parents hist fid = .ok es) →
+      collect o parents hist acc order = .ok (acc ++ order.flatMap (okEffects o parents hist)) := by
+  induction order with
+  | nil => intro acc _; simp [collect, pure, Except.pure]
+  | cons f rest ih =>
+    intro acc h
+    obtain ⟨es, hes⟩ := h f (by simp)
+    have hrest := ih (acc ++ es) (fun g hg => h g (by simp [hg]))
+    simp only [collect, List.foldlM_cons, hes, bind, Except.bind, pure, Except.pure] at hrest ⊢
+    rw [hrest]
+    simp [okEffects, hes]
+
+theorem collect_err (o : Options) (parents : List ParentV) (hist : Nat → Option (List Child)) (order : List Nat) :
+    ∀ acc, (∃ fid ∈ order, ∃ e, childEffects o parents hist fid = .error e) →
+      ∃ e, collect o parents hist acc order = .error e := by
+  induction order with
+  | nil => intro acc h; obtain ⟨f, hf, _⟩ := h; cases hf
+  | cons f rest ih =>
+    intro acc h
+    cases hf : childEffects o parents hist f with
+    | error e => exact ⟨e, by simp [collect, List.foldlM_cons, hf, bind, Except.bind]⟩
+    | ok es =>
+      obtain ⟨g, hg, e, he⟩ := h
+      rcases List.mem_cons.mp hg with e1 | e1
+      · subst e1; rw [hf] at he; cases he
+      · obtain ⟨e', he'⟩ := ih (acc ++ es) ⟨g, e1, e, he⟩
+        exact ⟨e', by simpa [collect, List.foldlM_cons, hf, bind, Except.bind, pure, Except.pure] using he'⟩
+
+/-- success or failure does not depend on the iteration order -/
+theorem collect_success_perm (o : Options) (parents : List ParentV) (hist : Nat → Option (List Child))
+    (order1 order2 : List Nat) (hp : order1.Perm order2) :
+    (∃ r, collect o parents hist [] order1 = .ok r) ↔ (∃ r, collect o parents hist [] order2 = .ok r) := by
+  have key : ∀ a b : List Nat, a.Perm b → (∃ r, collect o parents hist [] a = .ok r) → ∃ r, collect o parents hist [] b = .ok r := by
+    intro a b hab ⟨r, hr⟩
+    have hall : ∀ fid ∈ b, ∃ es, childEffects o parents hist fid = .ok es := by
+      intro fid hfid
+      cases hc : childEffects o parents hist fid with
+      | ok es => exact ⟨es, rfl⟩
+      | error e =>
+        obtain ⟨e', he'⟩ := collect_err o parents hist a [] ⟨fid, hab.mem_iff.mpr hfid, e, hc⟩
+        rw [hr] at he'; cases he'
+    exact ⟨_, collect_ok_iff o parents hist b [] hall⟩
+  exact ⟨key _ _ hp, key _ _ hp.symm⟩
+
+/-- the value a parent's child slot `j` ends up with -/
+def childAt (sets : List (Nat × Child)) (j : Nat) : Option Child :=
+  ((sets.filter (fun s => s.1 = j)).getLast?).map (·.2)
+
+theorem filter_key_perm {l1 l2 : List (Nat × Child)} (hp : l1.Perm l2) (hn : (l1.map (·.1)).Nodup) (j : Nat) :
+    l1.filter (fun s => s.1 = j) = l2.filter (fun s => s.1 = j) := by
+  have hpf := hp.filter (fun s => decide (s.1 = j))
+  have hlen : ∀ l : List (Nat × Child), (l.map (·.1)).Nodup → (l.filter (fun s => decide (s.1 = j))).length ≤ 1 := by
+    intro l
+    induction l with
+    | nil => simp
+    | cons x xs ih =>
+      intro hnd
+      simp only [List.map_cons, List.nodup_cons] at hnd
+      by_cases hx : x.1 = j
+      · have : xs.filter (fun s => decide (s.1 = j)) = [] := by
+          rw [List.filter_eq_nil_iff]
+          intro y hy
+          simp only [decide_eq_true_eq]
+          intro e
+          exact hnd.1 (by rw [hx, ← e]; exact List.mem_map.mpr ⟨y, hy, rfl⟩)
+        simp [List.filter_cons, hx, this]
+      · simp only [List.filter_cons, hx, decide_false, Bool.false_eq_true, if_false]
+        exact ih hnd.2
+  have h1 := hlen l1 hn
+  have h2 := hlen l2 ((hp.map _).nodup_iff.mp hn)
+  match e1 : l1.filter (fun s => decide (s.1 = j)), e2 : l2.filter (fun s => decide (s.1 = j)) with
+  | [], [] => rw [e1, e2]
+  | [a], [b] =>
+    rw [e1, e2] at hpf
+    have := hpf.mem_iff.mp (List.mem_singleton.mpr rfl)
+    simp only [List.mem_singleton] at this
+    rw [e1, e2, this]
+  | [], _ :: _ => rw [e1, e2] at hpf; exact absurd hpf.length_eq (by simp)
+  | _ :: _, [] => rw [e1, e2] at hpf; exact absurd hpf.length_eq (by simp)
+  | _ :: _ :: _, _ => rw [e1] at h1; simp at h1
+  | _, _ :: _ :: _ => rw [e2] at h2; simp at h2
+
+/-- no two different updates of one parent share index, timestamp and version -/
+def KeysInjective (l : List Update) : Prop :=
+  ∀ a ∈ l, ∀ b ∈ l, a.index = b.index → a.ts = b.ts → a.version = b.version → a = b
+
+/-- `compute` = fold over the children, then per-parent projection and sort -/
+theorem compute_eq_collect (o : Options) (parents : List ParentV) (hist : Nat → Option (List Child)) :
+    ∀ order, compute o parents hist order =
+      (collect o parents hist [] order).map (fun effects =>
+        { sets := (List.range parents.length).map (fun i => (effects.filter (·.parent = i)).flatMap (·.sets)),
+          updates := (List.range parents.length).map (fun i => sortByIndex ((effects.filter (·.parent = i)).flatMap (·.updates))) }) := by
+  intro order
+  unfold compute collect
+  cases h : List.foldlM (fun acc fid => do
+      let es ← childEffects o parents hist fid
+      pure (acc ++ es)) ([] : List Effect) order with
+  | error e => simp [bind, Except.bind, Except.map]
+  | ok effs => simp [bind, Except.bind, Except.map, pure, Except.pure]
+
+/-- **annotation is a function of its input, independent of hash-map iteration order**: for two
+    iteration orders of the same child set either both fail or both succeed; then every parent's update
+    list is identical (given that no two distinct updates of one parent share index, time and version —
+    `updates_ties_equal` below shows where that comes from) and every child slot holds the same child. -/
+theorem compute_order_independent (o : Options) (parents : List ParentV) (hist : Nat → Option (List Child))
+    (order1 order2 : List Nat) (hp : order1.Perm order2) :
+    ((∃ r, compute o parents hist order1 = .ok r) ↔ (∃ r, compute o parents hist order2 = .ok r)) ∧
+    ∀ r1 r2, compute o parents hist order1 = .ok r1 → compute o parents hist order2 = .ok r2 →
+      (∀ i, KeysInjective (r1.updates.getD i []) → r2.updates.getD i [] = r1.updates.getD i []) ∧
+      (∀ i j, ((r1.sets.getD i []).map (·.1)).Nodup →
+        childAt (r2.sets.getD i []) j = childAt (r1.sets.getD i []) j) := by
+  have hcomp := compute_eq_collect o parents hist
+  have hsucc := collect_success_perm o parents hist order1 order2 hp
+  constructor
+  · rw [hcomp, hcomp]
+    constructor
+    · rintro ⟨r, hr⟩
+      cases h1 : collect o parents hist [] order1 with
+      | error e => rw [h1] at hr; simp [Except.map] at hr
+      | ok e1 =>
+        obtain ⟨e2, he2⟩ := hsucc.mp ⟨e1, h1⟩
+        exact ⟨_, by rw [he2]; rfl⟩
+    · rintro ⟨r, hr⟩
+      cases h2 : collect o parents hist [] order2 with
+      | error e => rw [h2] at hr; simp [Except.map] at hr
+      | ok e2 =>
+        obtain ⟨e1, he1⟩ := hsucc.mpr ⟨e2, h2⟩
+        exact ⟨_, by rw [he1]; rfl⟩
+  · intro r1 r2 h1 h2
+    rw [hcomp] at h1 h2
+    -- both collects succeeded: get the effect lists
+    cases c1 : collect o parents hist [] order1 with
+    | error e => rw [c1] at h1; simp [Except.map] at h1
+    | ok e1 =>
+      cases c2 : collect o parents hist [] order2 with
+      | error e => rw [c2] at h2; simp [Except.map] at h2
+      | ok e2 =>
+        rw [c1] at h1; rw [c2] at h2
+        simp only [Except.map, Except.ok.injEq] at h1 h2
+        -- the effect lists are permutations of each other
+        have hall1 : ∀ fid ∈ order1, ∃ es, childEffects o parents hist fid = .ok es := by
+          intro fid hfid
+          cases hc : childEffects o parents hist fid with
+          | ok es => exact ⟨es, rfl⟩
+          | error e =>
+            obtain ⟨e', he'⟩ := collect_err o parents hist order1 [] ⟨fid, hfid, e, hc⟩
+            rw [c1] at he'; cases he'
+        have hall2 : ∀ fid ∈ order2, ∃ es, childEffects o parents hist fid = .ok es :=
+          fun fid hfid => hall1 fid (hp.mem_iff.mpr hfid)
+        have f1 := collect_ok_iff o parents hist order1 [] hall1
+        have f2 := collect_ok_iff o parents hist order2 [] hall2
+        rw [c1] at f1; rw [c2] at f2
+        simp only [List.nil_append, Except.ok.injEq] at f1 f2
+        have hpe : e1.Perm e2 := by rw [f1, f2]; exact hp.flatMap_right _
+        subst h1; subst h2
+        constructor
+        · intro i hk
+          by_cases hi : i < parents.length
+          · simp only [List.getD_eq_getElem?_getD, List.getElem?_map, List.getElem?_range hi, Option.map_some,
+              Option.getD_some] at hk ⊢
+            have hpu : ((e1.filter (·.parent = i)).flatMap (·.updates)).Perm ((e2.filter (·.parent = i)).flatMap (·.updates)) :=
+              (hpe.filter _).flatMap_right _
+            symm
+            apply sorted_perm_unique less _ _ ((sortByIndex_perm _).trans (hpu.trans (sortByIndex_perm _).symm))
+              (sortByIndex_sorted _) (sortByIndex_sorted _)
+            intro a ha b hb l1 l2
+            obtain ⟨k1, k2, k3⟩ := incomparable_keys_equal a b l1 l2
+            exact hk a ha b hb k1 k2 k3
+          · have : (List.range parents.length)[i]? = none := by simp; omega
+            simp [List.getD_eq_getElem?_getD, List.getElem?_map, this]
+        · intro i j hn
+          by_cases hi : i < parents.length
+          · simp only [List.getD_eq_getElem?_getD, List.getElem?_map, List.getElem?_range hi, Option.map_some,
+              Option.getD_some] at hn ⊢
+            have hps : ((e1.filter (·.parent = i)).flatMap (·.sets)).Perm ((e2.filter (·.parent = i)).flatMap (·.sets)) :=
+              (hpe.filter _).flatMap_right _
+            unfold childAt
+            rw [filter_key_perm hps hn j]
+          · have : (List.range parents.length)[i]? = none := by simp; omega
+            simp [List.getD_eq_getElem?_getD, List.getElem?_map, this]
+
+/-- **each update list is ordered by child index and, within an index, by time and then by child version** -/
+theorem updates_sorted_index_time_version (o : Options) (parents : List ParentV) (hist : Nat → Option (List Child))
+    (order : List Nat) (r : Result) (h : compute o parents hist order = .ok r) :
+    ∀ l ∈ r.updates, l.Pairwise (fun a b =>
+      a.index < b.index ∨ (a.index = b.index ∧ (a.ts < b.ts ∨ (a.ts = b.ts ∧ a.version ≤ b.version)))) := by
+  intro l hl
+  have hs : SortedBy less l := by
+    rw [compute_eq_collect] at h
+    cases hc : collect o parents hist [] order with
+    | error e => rw [hc] at h; simp [Except.map] at h
+    | ok effs =>
+      rw [hc] at h
+      simp only [Except.map, Except.ok.injEq] at h
+      subst h
+      simp only [List.mem_map, List.mem_range] at hl
+      obtain ⟨i, _, rfl⟩ := hl
+      exact sortByIndex_sorted _
+  apply List.Pairwise.imp _ hs
+  intro a b hba
+  -- ¬ (b < a) in the lexicographic order
+  have : ¬ (b.index < a.index ∨ (b.index = a.index ∧ (b.ts < a.ts ∨ (b.ts = a.ts ∧ b.version < a.version)))) :=
+    fun hh => by have := (less_iff_lex b a).mpr hh; rw [hba] at this; cases this
+  by_cases i1 : a.index < b.index
+  · exact Or.inl i1
+  · right
+    have ei : a.index = b.index := by
+      rcases Nat.lt_or_ge b.index a.index with h | h
+      · exact absurd (Or.inl h) this
+      · omega
+    refine ⟨ei, ?_⟩
+    by_cases t1 : a.ts < b.ts
+    · exact Or.inl t1
+    · right
+      have et : a.ts = b.ts := by
+        rcases Int.lt_or_le b.ts a.ts with h | h
+        · exact absurd (Or.inr ⟨ei.symm, Or.inl h⟩) this
+        · omega
+      refine ⟨et, ?_⟩
+      rcases Int.lt_or_le b.version a.version with h | h
+      · exact absurd (Or.inr ⟨ei.symm, Or.inr ⟨et.symm, h⟩⟩) this
+      · exact h
+
+/-- regression witness for the repaired defect: with the keys the source had before (`index`, `timestamp`
+    only) two versions of one child that share a second are incomparable although different, so the
+    sorted order was not unique -/
+theorem updates_tie_counterexample :
+    let a : Update := ⟨0, 2, 100, 7, 1, 1, false⟩
+    let b : Update := ⟨0, 3, 100, 7, 2, 2, false⟩
+    keyLess ["index", "timestamp"] a b = false ∧ keyLess ["index", "timestamp"] b a = false ∧ a ≠ b ∧
+    less a b = true := by decide
+
 end OsmVerif.Props.C12
